@@ -252,7 +252,7 @@ def fragment_inputs(ctx: fw.Ctx):
 
 def fragment_correspondence(ctx: fw.Ctx):
     """Model/Cst.lean + FromCst.lean + Rebuild.lean vs source_code.py / set.py / binding.py / list.py /
-    primitive.py / trivia.py, whole round trip: the REAL tree-sitter tree of every input that lies in
+    primitive.py / parenthesis.py / function/call.py / trivia.py, whole round trip: the REAL tree-sitter tree of every input that lies in
     the container fragment is converted to the model's `Cst` (harness/cstdump.py; the parser contract
     `flatten(cst) == text` is checked on the way), the Lean driver parses and rebuilds it with the
     model, and the text must equal `parse(text).rebuild()` of the implementation. On the same inputs
@@ -287,22 +287,27 @@ def fragment_correspondence(ctx: fw.Ctx):
         reqs.append(["norm", sx])
     replies = ctx.driver.ask_many(reqs)
     bad = 0
-    hyp = {"inputs": 0, "orderOk": 0, "beforeFlatB": 0, "safe": 0, "spacing_nf": 0, "tokens": 0}
+    hyp = {"inputs": 0, "orderOk": 0, "beforeFlatB": 0, "safe": 0, "spacing_nf": 0, "tokens": 0,
+           "basic": 0, "nonbasic_spacing_nf": 0}
     for k, (origin, text, tree) in enumerate(texts):
         got, pieces, flat, facts, norm = (replies[5 * k + n] for n in range(5))
         if facts and facts[0] == "ok":
             # the decidable hypotheses / conclusions of the fragment theorems on this input, evaluated by
-            # the compiled model: C01.frag_tokens_preserved and frag_safe have no exclusion, C18.frag_spacing_nf
-            # holds under beforeFlatB. An instance contradicting a theorem means the driver does not run
-            # the model the theorems are about.
-            o_ok, clean, safe, nf, tk = (x == "t" for x in facts[1:6])
+            # the compiled model: C01.frag_tokens_preserved and frag_safe have no exclusion (whole fragment,
+            # parentheses and calls included), C18.frag_spacing_nf holds under beforeFlatB for the container
+            # part (`File.basic`). An instance contradicting a theorem means the driver does not run
+            # the model the theorems are about. For files with parentheses / calls the spacing conclusion
+            # is only counted (not proved yet).
+            o_ok, clean, safe, nf, tk, basic = (x == "t" for x in facts[1:7])
             hyp["inputs"] += 1
             hyp["orderOk"] += o_ok
             hyp["beforeFlatB"] += clean
             hyp["safe"] += safe
             hyp["spacing_nf"] += nf
             hyp["tokens"] += tk
-            if not safe or not tk or (clean and not nf):
+            hyp["basic"] += basic
+            hyp["nonbasic_spacing_nf"] += (not basic) and nf
+            if not safe or not tk or (basic and clean and not nf):
                 bad += 1
                 if bad <= 5:
                     ctx.tie_break("theorem-instance", "the compiled model contradicts a fragment theorem on this input",
@@ -384,7 +389,9 @@ def fragment_correspondence(ctx: fw.Ctx):
 FRAGMENT_PROBES = [
     ("Nima.C03.cex_comment_overtakes", "C03", "[ x\n /* b */ /* c */ y ]"),
     ("Nima.C03.cex_comment_overtakes", "C03", "x\n# a\n/* b */ /* c */\n"),
+    ("Nima.C03.cex_call_comment_reordered", "C03", "f/* a */ /* b */ x"),
     ("Nima.C18.cex_block_comment_after_opener", "C18", "{ /* c */ a = 1; }"),
+    ("Nima.C18.cex_comment_after_open_paren", "C18", "[\n  ( /* c */ x)\n]"),
     ("Nima.C06.cex_comment_around_semicolon", "C06", "{ a = 1 # c\n; # d\n}"),
 ]
 
